@@ -17,10 +17,50 @@ const POOL: [&str; 22] = [
 ];
 
 fn flat_match(e: &str, name: &str) -> bool {
-    // the real non-brace matcher decides whether one expansion matches
+    // Whether one expansion matches: decided by the composed reference model (dewey, glob,
+    // plain) wherever the expansion lies inside the modelled subset and the verdict does not
+    // hinge on the weight of a single letter; by the real non-brace matcher otherwise ('**',
+    // letter-weight-dependent bounds).  So a leaf-matching fault reachable only through the
+    // alternation path is not on both sides of the comparison.
+    use mc_core::model::dewey::LetterWeight;
+    use mc_core::model::pattern as mpat;
+    if !e.contains("**") {
+        let (r, a) = (mpat::matches_flat(e, name, LetterWeight::Rank), mpat::matches_flat(e, name, LetterWeight::AsciiLower));
+        if r == a {
+            return r.unwrap_or(false);
+        }
+    }
     match Pattern::new(e) {
         Ok(p) => p.matches(name),
         Err(_) => false,
+    }
+}
+
+/// Strings that still contain braces: the pattern itself, and the pattern with one group
+/// replaced by one of its alternatives.  None of them is an expansion, so none has a claim to
+/// match (unless it happens to equal one).
+fn partial_names(p: &str, out: &mut BTreeSet<String>, cap: usize) {
+    out.insert(p.to_string());
+    let s: Vec<char> = p.chars().collect();
+    for i in 0..s.len() {
+        if s[i] != '{' {
+            continue;
+        }
+        for j in i + 1..s.len() {
+            if s[j] != '}' {
+                continue;
+            }
+            let inner: String = s[i + 1..j].iter().collect();
+            for piece in inner.split(',') {
+                if out.len() >= cap {
+                    return;
+                }
+                out.insert(s[..i].iter().collect::<String>() + piece + &s[j + 1..].iter().collect::<String>());
+            }
+        }
+    }
+    for extra in ["{", "}", ",", "{}", "{,}", "{a,b}", "a,b", "{a", "b}"] {
+        out.insert(extra.to_string());
     }
 }
 
@@ -122,6 +162,8 @@ fn check(t: &mut Tally, p: &str, base_names: &[String], literal_expansions: bool
         }
     }
     wrong_pairing_names(p, &mut names, base_names.len() + ex.len() + 64);
+    let cap = names.len() + 48;
+    partial_names(p, &mut names, cap);
     for name in &names {
         t.evals += 1;
         t.validated += 1;
@@ -185,7 +227,7 @@ fn main() {
          '{ } , p - 1 2 >= < * [0-9] [' against a 22-name pool (expansions are dewey / glob / plain / \
          invalid patterns). Non-trivial = balanced patterns with nested groups or several groups.",
     );
-    run.assume("the per-expansion verdict is the implementation's own non-brace matcher (whose correctness is C02/C05); only the expansion set is modelled: mc/core/src/model/brace.rs");
+    run.assume("expansion set from mc/core/src/model/brace.rs; the per-expansion verdict from the composed dewey/glob/plain models, falling back to the implementation's own non-brace matcher only for '**' and for bounds whose verdict hinges on a single letter's weight");
 
     let l = run.pick(9, 11);
     let names = ab_names();
